@@ -106,6 +106,7 @@ func runC10(c *core.Ctx) {
 	c.RuleDoc("R10.3", "memoised info comes from the source")
 	c.RuleDoc("R10.4", "directory handle lists the source")
 	c.RuleDoc("R10.5", "a copy that was not written and closed successfully does not stay in the cache")
+	c.RuleDoc("R10.10", "the cache copy is created with the source's mode itself")
 	c.RuleDoc("R10.9", "the fill reads a freshly opened (or rewound) source handle, it is never retried on a handle already read from")
 	c.RuleDoc("R10.8", "the cache's directory handle can be rewound with Seek like the source's")
 	c.RuleDoc("R10.7", "a partial copy that could not be removed stays marked until it is removed")
@@ -157,11 +158,13 @@ func runC10(c *core.Ctx) {
 		readDiscipline(c, p, "R10.6", pkgFuncs(p, "cache"))
 		r10NeverServeMark(c, p, sh, "R10.7")
 		r11FillOncePerHandle(c, p, sh, "R10.9")
+		r10CopyKeepsMode(c, p, sh)
 	}
 	c.Floor("R10.5", 2)
 	c.Floor("R10.7", 2)
 	c.Floor("R10.8", 1)
 	c.Floor("R10.9", 1)
+	c.Floor("R10.10", 1)
 	c.Floor("R10.1", 1)
 	c.Floor("R10.2", 1)
 	c.Floor("R10.3", 1)
@@ -809,5 +812,29 @@ func r11FillOncePerHandle(c *core.Ctx, p *load.Program, sh *cacheShape, rule str
 		c.Bad(rule, key, bad, fmt.Sprintf("%s.Open calls the fill again at %s on a handle a previous fill already read from, without re-opening or rewinding it: the retry copies only the bytes behind the handle's offset and succeeds — the cache keeps the tail of the file and serves it to every later Open", tk, bad))
 	default:
 		c.OK(rule, key, p.Pos(fn.Pos()), "every fill reads a handle that was just opened from the source (or rewound)")
+	}
+}
+
+// r10CopyKeepsMode (R10.10): the fill creates the cache copy with the mode it read from the source, unchanged — the
+// copy's Stat is what later opens report. (Sibling rule of R08.5: a mode reaches a delegate as itself, not 'mode | K'.)
+func r10CopyKeepsMode(c *core.Ctx, p *load.Program, sh *cacheShape) {
+	fn := sh.copy
+	n := 0
+	ssax.Instrs(fn, func(ins ssa.Instruction) {
+		cl := fieldInvoke(ins, sh.named, sh.cField, "OpenFile")
+		if cl == nil || len(cl.Call.Args) != 3 {
+			return
+		}
+		n++
+		m := cl.Call.Args[2]
+		direct := false
+		if mc, ok := m.(*ssa.Call); ok && mc.Call.IsInvoke() && mc.Call.Method.Name() == "Mode" {
+			direct = true
+		}
+		c.Check(direct, "R10.10", typeKey(sh.named)+".fill|copy-created-with-the-source-mode", p.Pos(cl.Pos()), "the cache file is created with info.Mode() itself",
+			fmt.Sprintf("%s creates the cache copy with a mode computed from the source's (not the source's mode itself): from the second Open on the handle comes from the cache, and its Stat().Mode() shows bits the source file does not have (0444 reports as -rw-r--r--)", fname(fn)))
+	})
+	if n == 0 {
+		c.Hard("anchor: creation of the cache file in the fill")
 	}
 }
